@@ -342,11 +342,32 @@ func C10(r *eng.Run) {
 				h := new(big.Int).Mul(big.NewInt(5), ref.Pow10(k-1))
 				zh := new(big.Int).Add(z, h)
 				checkFromInt(w, zh, fmt.Sprintf("%v*10^%d+5*10^%d", K, k, k-1))
+				checkFromInt(w, new(big.Int).Neg(zh), fmt.Sprintf("-(%v*10^%d+5*10^%d)", K, k, k-1))
+				// dropped digits 4999.., 49999.., 9999.. (with and without something after them), both signs
+				for _, tl := range []int64{4999, 49999, 9999, 99999, 5001, 50001} {
+					tn := ref.NumDigits(big.NewInt(tl))
+					if k < tn {
+						continue
+					}
+					for _, extra := range []int64{0, 7} {
+						if k == tn && extra != 0 {
+							continue
+						}
+						zz := new(big.Int).Add(z, new(big.Int).Mul(big.NewInt(tl), ref.Pow10(k-tn)))
+						if extra != 0 {
+							zz.Add(zz, big.NewInt(extra))
+						}
+						checkFromInt(w, zz, fmt.Sprintf("%v*10^%d+%d*10^%d+%d", K, k, tl, k-tn, extra))
+						checkFromInt(w, new(big.Int).Neg(zz), fmt.Sprintf("-(%v*10^%d+%d*10^%d+%d)", K, k, tl, k-tn, extra))
+					}
+				}
 				// tie broken by a single sticky digit at every chunk-relevant position below the guard digit
 				for _, j := range []int{0, 1, 17, 18, 19, 35, 36, 37, 53, 54, 55, k - 3, k - 2} {
 					if j >= 0 && j < k-1 {
 						checkFromInt(w, new(big.Int).Add(zh, ref.Pow10(j)), fmt.Sprintf("%v*10^%d+5*10^%d+10^%d", K, k, k-1, j))
 						checkFromInt(w, new(big.Int).Sub(zh, ref.Pow10(j)), fmt.Sprintf("%v*10^%d+5*10^%d-10^%d", K, k, k-1, j))
+						checkFromInt(w, new(big.Int).Neg(new(big.Int).Add(zh, ref.Pow10(j))), fmt.Sprintf("-(%v*10^%d+5*10^%d+10^%d)", K, k, k-1, j))
+						checkFromInt(w, new(big.Int).Neg(new(big.Int).Sub(zh, ref.Pow10(j))), fmt.Sprintf("-(%v*10^%d+5*10^%d-10^%d)", K, k, k-1, j))
 					}
 				}
 			}
